@@ -78,7 +78,7 @@ func run(r *eng.Runner) {
 		maxP = 4
 	}
 	args := argExprs()
-	r.Group("binding", "prog.case", fmt.Sprintf("signatures with 0..%d parameters x every subset with defaults x calls with 0..n+1 arguments of 7 kinds x {local, imported, imported under alias}; body holds literal markup and prints every parameter", maxP))
+	r.Group("binding", "prog.case", fmt.Sprintf("signatures with 0..%d parameters x every subset with defaults x calls with 0..n+1 arguments of 7 kinds x {local, imported, imported under alias, local with same-named set variables}; body holds literal markup and prints every parameter", maxP))
 	pnames := []string{"p", "q", "r", "s"}
 	for np := 0; np <= maxP; np++ {
 		for dmask := 0; dmask < 1<<np; dmask++ {
@@ -101,12 +101,16 @@ func run(r *eng.Runner) {
 					for _, i := range idx {
 						cargs = append(cargs, args[i])
 					}
-					for route := 0; route < 3; route++ {
+					for route := 0; route < 4; route++ {
 						m := Macro{Name: "mac", Params: params, Body: macroBody(pnames[:np])}
 						files := map[string][]Node{}
 						callName := "mac"
 						var main []Node
 						switch route {
+						case 3:
+							// local definition in a scope that has SET variables named like the parameters:
+							// an omitted parameter takes its default (or is empty), never the outer variable
+							main = []Node{Set{Name: "p", E: lits("set-p")}, Set{Name: "q", E: lits("set-q")}, Set{Name: "r", E: lits("set-r")}, m}
 						case 0:
 							main = []Node{m}
 						case 1:
